@@ -395,7 +395,8 @@ def bounded_dynamic(run):
     for fn in ("_do_execute_instructions", "_apply_instruction_to_branches", "execute_instructions"):
         node = cfgmod.find_function(tree, "Simulator." + fn)
         for n in ast.walk(node):
-            if isinstance(n, ast.stmt) and n is not node:
+            # the line of a `try:` keyword evaluates nothing and cannot raise: not an injection point
+            if isinstance(n, ast.stmt) and n is not node and not isinstance(n, ast.Try):
                 lines.add(n.lineno)
         # a fault *at the restoring statement itself* is not a meaningful injection point
         for t in ast.walk(node):
@@ -410,7 +411,7 @@ def bounded_dynamic(run):
     for fn in ("_resolve_params", "_is_condition_met"):
         node = cfgmod.find_function(itree, "Instruction." + fn)
         for n in ast.walk(node):
-            if isinstance(n, ast.stmt) and n is not node:
+            if isinstance(n, ast.stmt) and n is not node and not isinstance(n, ast.Try):
                 ilines.add(n.lineno)
     evaluations, distinct, failures = 0, set(), 0
     found = {}
